@@ -2436,6 +2436,7 @@ func (a *Association) handleData(chunkPayload *chunkPayloadData) []*packet {
 		a.t2Shutdown.stop()
 	}
 
+	duplicate := false
 	canPush := a.payloadQueue.canPush(chunkPayload.tsn)
 	if canPush {
 		if !a.acceptPayloadData(chunkPayload) {
@@ -2445,6 +2446,14 @@ func (a *Association) handleData(chunkPayload *chunkPayloadData) []*packet {
 
 			return nil
 		}
+	} else {
+		// RFC 4960 sec 6.2: a duplicate DATA chunk is reported in the next SACK
+		// and acknowledged without delay. push() records a TSN that is at or
+		// below the cumulative TSN or already received, and ignores one that is
+		// beyond the tracking window.
+		nDups := len(a.payloadQueue.dupTSN)
+		a.payloadQueue.push(chunkPayload.tsn)
+		duplicate = len(a.payloadQueue.dupTSN) > nDups
 	}
 
 	// Upon the reception of a new DATA chunk, an endpoint shall examine the
@@ -2456,7 +2465,7 @@ func (a *Association) handleData(chunkPayload *chunkPayloadData) []*packet {
 	expectedTSN := a.peerLastTSN() + 1
 	gapDetected := sna32GT(chunkPayload.tsn, expectedTSN)
 
-	sackNow := chunkPayload.immediateSack || gapDetected
+	sackNow := chunkPayload.immediateSack || gapDetected || duplicate
 	if state == shutdownSent {
 		sackNow = true
 	}
